@@ -366,6 +366,9 @@ class Run(object):
             cov["forbidden_constructs_found"] = bs.forbidden
             if bs.coqchk.get(prop):
                 cov["coqchk"] = bs.coqchk[prop]
+        if os.environ.get("VERIF_ESCALATED"):
+            self.notes.append("quick check escalated to the thorough case counts: %s differ(s) from the pinned "
+                              "fingerprints (corpus/fingerprints.json)" % os.environ["VERIF_ESCALATED"])
         cov["known_findings_reported"] = self.known
         cov["notes"] = self.notes
         ev = {"property_id": prop, "tier": self.tier, "seed": self.seed, "level": level, "coverage": cov,
